@@ -10,8 +10,8 @@ import (
 
 	"verif/evmkit"
 
-	rtypes "github.com/dappledger/AnnChain/chain/types"
 	"github.com/dappledger/AnnChain/chain/app/evm"
+	rtypes "github.com/dappledger/AnnChain/chain/types"
 	"github.com/dappledger/AnnChain/eth/common"
 	etypes "github.com/dappledger/AnnChain/eth/core/types"
 	"github.com/dappledger/AnnChain/eth/rlp"
